@@ -14,7 +14,9 @@ EXPLANATION = ('For every physical operator that has both try_to_proto and try_f
                'of a generated message it builds is filled with a constant, None or an empty container, and every field of those messages is '
                'read in the call tree of the matching try_from_proto (58 pairs) — a field silently dropped on either side makes two '
                'different plans identical on the wire. The few (message, field) exceptions are frozen in rules/protocov.py, each with the '
-               'reason read in the source. Whether the value written is the RIGHT value, and equality of whole plans, are not decided.')
+               'reason read in the source. Optional wire fields: a decoder may read an optional field through unwrap_or* (collapsing absent and '
+               'default) only if every encoder always writes Some(..) there; an encoder that passes a domain Option through needs a decoder that '
+               'keeps the distinction. Whether the value written is the RIGHT value, and equality of whole plans, are not decided.')
 ASSUMPTIONS = ['a protobuf enum value travels as the i32 of the same variant (prost)']
 
 
@@ -130,12 +132,16 @@ def run(ctx):
     ctx.floor('enum-tag-roundtrip', 'standalone conversion pairs used by physical plans', m, 6)
     # field-level agreement of every operator's own encoder and decoder
     protocov.check(ctx)
+    protocov.check_default_collapse(ctx, floor=2)
     import common
     st = ctx.st
     probe = common.Ctx(ctx.pid, ctx.tier, st, st, {})
     probe.known = []
     protocov.check(probe, 'st-enc', 'st-dec', genp='dfscan_selftest::protos::generated::', const_ok={}, unread_ok={}, floors=None)
+    protocov.check_default_collapse(probe, 'st-collapse', genp='dfscan_selftest::protos::generated::')
     keys = [v['key'] for v in probe.viol]
+    ctx.selftest('default-collapse rule detects unwrap_or_default on an Option the encoder passes through (TopkNode.descending), accepts one the encoder always fills (TopkNode.nullable)',
+                 'st-collapse|TopkNode.descending' in keys and 'st-collapse|TopkNode.nullable' not in keys)
     ctx.selftest('coverage rules detect an encoder that writes None for a field (BadEncLimit) and a decoder that ignores a field (BadDecSort), accept GoodLimit',
                  any(k.startswith('st-enc|') and 'BadEncLimit' in k for k in keys) and any(k.startswith('st-dec|') and 'BadDecSort' in k for k in keys)
                  and not any('GoodLimit' in k for k in keys))
